@@ -213,7 +213,12 @@ def run(ctx):
     for _ in range(300 if ctx.tier == "quick" else 6000):
         mvs.append("".join(rng.choice("0123456789.+- ") for _ in range(rng.randint(1, 8))))
     ctes = ["7bit", "8bit", "binary", "base64", "quoted-printable", "7BIT", "Base64", "Quoted-Printable", " 7bit", "7bit ", "7bit\r\n", "", "7 bit", "7bit;", "base-64", "x-token", "8bitx", "binary\x00", "quoted-printable ", "BINARY"]
-    tyl = ["mv.parse\t" + hx(U(x)) for x in mvs] + ["cte.parse\t" + hx(U(x)) for x in ctes]
+    cds = ["inline", "attachment", "inline;", "attachment;", "attachment; filename=\"a.txt\"", "inline; filename=\"a.txt\"", "attachment;filename=\"a.txt\"", "attachment; filename=a.txt", "attachment; filename=\"a.txt", "attachment; filename=\"\"",
+           "attachment; filename=\"a\" filename=\"b\"", "attachment; x=y; filename=\"z\"", "ATTACHMENT; filename=\"a\"", "form-data; filename=\"a\"", " attachment; filename=\"a\"", "attachment ; filename=\"a\"", "attachment; filename=\"a\" ",
+           "attachment; filename=\"é;\\\"\r\n\"", "attachment; filename*=utf-8''a", "attachment; filename=\"a\"; size=3", "inline; filename=\"", "inline; filename=\"\"\"", "", ";", "inline\r\n", "attachment;\r\n filename=\"a\""]
+    for fn in fnames:
+        cds += ["attachment; filename=\"%s\"" % fn, "inline; filename=\"%s\"" % fn]
+    tyl = ["mv.parse\t" + hx(U(x)) for x in mvs] + ["cte.parse\t" + hx(U(x)) for x in ctes] + ["cd.parse\t" + hx(U(x)) for x in cds]
     tyi, tym = run_impl(tyl), run_model(tyl)
     ctx.count(len(tyl))
     ty_diff = [(l, a, b) for l, a, b in zip(tyl, tyi, tym) if a != b]
@@ -223,7 +228,7 @@ def run(ctx):
     ctx.cov["correspondence"] = {"mbox.parse/mboxes.parse": {"cases": 2 * len(strs), "exhaustive_alphabet": "a 1 @ \" \\ . < > SP , U+00E9 TAB", "exhaustive_maxlen": maxlen, "exhaustive_count": n_exh, "disagreements": len(diffs)},
                                  "mbox.display": {"cases": len(dl), "disagreements": len(ddiff)}, "mboxes.display": {"cases": len(ll), "disagreements": len(ldiff)},
                                  "hdrs.ops": {"sequences": len(ol), "disagreements": len(odiff)},
-                                 "mv.parse/cte.parse": {"cases": len(tyl), "accepted": sum(1 for x in tyi if x.startswith("some")), "disagreements": len(ty_diff)},
+                                 "mv.parse/cte.parse/cd.parse": {"cases": len(tyl), "accepted": sum(1 for x in tyi if x.startswith("some")), "disagreements": len(ty_diff)},
                                  "date.display/date.parse": {"display": len(dl2), "parse_hostile": len(dp), "parse_of_displayed": len(dp2), "parsed_ok": sum(1 for x in di2[len(dl2):] if x.startswith("some")), "disagreements": len(date_diff)}}
     ctx.cov.setdefault("oracle_serde", {"serde_tied_to_display_and_fromstr": {"cases": len(sl), "failures": len(ser_bad)}})
     ctx.cov["oracle"] = {"display_then_parse_on_impl": {"mailboxes": len(cases), "lists": len(lists), "unexplained": len(unexpl), "known_class_hits": dict(hits)},
